@@ -106,9 +106,9 @@ def family(chk, d, tier, seed, hosts, typed_every=None, host_every=9):
     typed_every = typed_every or 5
     if tier == "quick":
         mix = '{"mix"}'
-        parts = [(dict(lv, L1=3, DStride=1, Stride=1), 1),
+        parts = [(dict(lv, L1=3, DStride=1, Stride=1, VisModes='{"all", "mix"}'), 1),
                  (dict(lv, L2=2, DStride=5, Stride=8, VisModes=mix), 2),
-                 (dict(lv, L3=1, DStride=14, Stride=13, VisModes=mix), 2)]
+                 (dict(lv, L3=1, DStride=14, Stride=16, VisModes=mix), 2)]
     else:
         mix = '{"mix"}'
         parts = [(dict(lv, L1=3, DStride=1, Stride=1, Rots="{0, 1, 2, 3}"), 1),
